@@ -10,7 +10,8 @@ namespace Nuts.C05
 /-- the session-store accessor in auth/api/iam that holds the secrets of each consumer kind -/
 def Kind.storeFn : Kind → String
   | .burn .code => "oauthCodeStore" | .burn .reqObj => "authzRequestObjectStore" | .burn .vpNonce => "oauthNonceStore"
-  | .burn .redirect => "userRedirectStore" | .mark .s2s => "s2sNonceStore" | .mark .jti => "useNonceOnceStore"
+  | .burn .redirect => "userRedirectStore" | .burn .preAuth => "refStore"
+  | .mark .s2s => "s2sNonceStore" | .mark .jti => "useNonceOnceStore"
 
 structure ApiCall where
   method : String
@@ -25,7 +26,7 @@ def ApiCall.render (store : String) (c : ApiCall) : String :=
 def Kind.api : Kind → List ApiCall
   | .burn .code => [⟨"Delete", true⟩, ⟨"GetAndDelete", false⟩]
   | .burn .vpNonce => [⟨"Delete", false⟩, ⟨"GetAndDelete", false⟩]
-  | .burn .reqObj | .burn .redirect => [⟨"GetAndDelete", false⟩]
+  | .burn .reqObj | .burn .redirect | .burn .preAuth => [⟨"GetAndDelete", false⟩]
   | .mark _ => [⟨"PutIfAbsent", false⟩]
 
 def Kind.apiCalls (k : Kind) : List String := k.api.map (ApiCall.render k.storeFn)
@@ -42,11 +43,13 @@ def todayMarkJti : MarkShape := (markShapeOf "useNonceOnceStore" Facts.C05.calls
 def todayTTL : Kind → Nat
   | .burn .code => Facts.C05.ttl_oauthCodeStore | .burn .reqObj => Facts.C05.ttl_authzRequestObjectStore
   | .burn .vpNonce => Facts.C05.ttl_oauthNonceStore | .burn .redirect => Facts.C05.ttl_userRedirectStore
+  | .burn .preAuth => Facts.C05.vciTokenTTL
   | .mark .s2s => Facts.C05.ttl_s2sNonceStore | .mark .jti => Facts.C05.ttl_useNonceOnceStore
 
 def todayPrefix : Kind → List String
   | .burn .code => Facts.C05.prefix_oauthCodeStore | .burn .reqObj => Facts.C05.prefix_authzRequestObjectStore
   | .burn .vpNonce => Facts.C05.prefix_oauthNonceStore | .burn .redirect => Facts.C05.prefix_userRedirectStore
+  | .burn .preAuth => Facts.C05.vciRefPrefix.map (fun p => if p = "<refType>" then Facts.C05.vciPreAuthRefType else p)
   | .mark .s2s => Facts.C05.prefix_s2sNonceStore | .mark .jti => Facts.C05.prefix_useNonceOnceStore
 
 /-- today's code on a given back-end (`strict`: Delete of a missing key is an error; `incl`: visible at the expiry instant) -/
